@@ -3,9 +3,160 @@ package main
 import (
 	"fmt"
 	"math"
+	"regexp"
+	"strconv"
+	"strings"
+	"time"
 
 	"github.com/antonmedv/expr"
+	"github.com/antonmedv/expr/compiler"
+	"github.com/antonmedv/expr/file"
+	"github.com/antonmedv/expr/parser"
+	"github.com/antonmedv/expr/parser/lexer"
+	"github.com/antonmedv/expr/vm"
 )
+
+// frontOracles: the two library functions the front end consults (strconv.ParseFloat on number tokens with a
+// fraction or exponent, regexp.Compile on string tokens), tabulated for one source by lexing it with the real lexer.
+func frontOracles(src string) (floats, badre *Sx) {
+	fl := []*Sx{A("floats")}
+	br := []*Sx{A("badre")}
+	toks, err := lexer.Lex(file.NewSource(src))
+	if err == nil {
+		seenF, seenR := map[string]bool{}, map[string]bool{}
+		for _, t := range toks {
+			switch t.Kind {
+			case lexer.Number:
+				v := strings.Replace(t.Value, "_", "", -1)
+				if strings.ContainsAny(v, ".eE") && !seenF[v] {
+					seenF[v] = true
+					if f, err := strconv.ParseFloat(v, 64); err != nil {
+						fl = append(fl, L(SStr(v), A("err")))
+					} else {
+						fl = append(fl, L(SStr(v), SUint(math.Float64bits(f))))
+					}
+				}
+			case lexer.String:
+				if !seenR[t.Value] {
+					seenR[t.Value] = true
+					if _, err := regexp.Compile(t.Value); err != nil {
+						br = append(br, SStr(t.Value))
+					}
+				}
+			}
+		}
+	}
+	return L(fl...), L(br...)
+}
+
+// EvalSourceCorrespondence: the whole model pipeline (`Api.evalSource`: lexer, parser, compiler, VM models in a
+// row; theorem `eval_source_conforms`) against the real `expr.Eval` on the same source text and environment:
+// front-end rejection, compile rejection, value / error class / call log.
+func EvalSourceCorrespondence(c *Ctx, cases []*Case, budget int) {
+	r := c.R
+	old := vm.MemoryBudget
+	vm.MemoryBudget = budget
+	defer func() { vm.MemoryBudget = old }()
+	type realOut struct{ s string }
+	var lines []string
+	var reals []string
+	var kept []*Case
+	seen := map[string]bool{}
+	for _, cs := range cases {
+		if cs.Src == "" {
+			continue
+		}
+		ev := envVal(cs)
+		key := cs.Src + "|" + valSx(ev).String()
+		if seen[key] {
+			continue
+		}
+		seen[key] = true
+		var real string
+		done := make(chan struct{})
+		go func() {
+			defer close(done)
+			defer func() {
+				if e := recover(); e != nil {
+					real = fmt.Sprintf("(panic %v)", e)
+				}
+			}()
+			cs.Env.ResetLog()
+			out, err := expr.Eval(cs.Src, ev)
+			logs := []string{}
+			for _, l := range cs.Env.Log() {
+				logs = append(logs, strings.ReplaceAll(l, " ", "~"))
+			}
+			if err == nil {
+				real = fmt.Sprintf("(ok %s log=%s)", valSx(out), strings.Join(logs, ","))
+				return
+			}
+			tree, perr := parser.Parse(cs.Src)
+			if perr != nil {
+				real = "(fronterr)"
+				return
+			}
+			if _, cerr := compiler.Compile(tree, nil); cerr != nil {
+				real = "(compileerr)"
+				return
+			}
+			real = fmt.Sprintf("(err %s log=%s)", classifyRunErr(err), strings.Join(logs, ","))
+		}()
+		select {
+		case <-done:
+		case <-time.After(20 * time.Second):
+			real = "(timeout)"
+		}
+		fl, br := frontOracles(cs.Src)
+		lines = append(lines, T("evalsource", SInt(int64(budget)), asIs.Sx(), valSx(ev), SStr(cs.Src), fl, br, T("regex")).String())
+		reals = append(reals, real)
+		kept = append(kept, cs)
+	}
+	resp, err := c.AskAll(lines)
+	if err != nil {
+		r.Mismatch("driver", "evalsource", err.Error(), "")
+		return
+	}
+	for i, cs := range kept {
+		m, perr := ParseSx(resp[i])
+		if perr != nil {
+			r.Mismatch("evalsource", cs.Src, resp[i], "unparsable")
+			continue
+		}
+		logOf := func(x *Sx) string {
+			out := []string{}
+			for _, e := range x.List[1:] {
+				s := e.List[0].Str()
+				for _, a := range e.List[1:] {
+					s += "~" + a.String()
+				}
+				out = append(out, strings.ReplaceAll(s, " ", "~"))
+			}
+			return strings.Join(out, ",")
+		}
+		var model string
+		switch m.Tag() {
+		case "lexerr", "parseerr":
+			model = "(fronterr)"
+		case "compileerr":
+			model = "(compileerr)"
+		case "ok":
+			model = fmt.Sprintf("(ok %s log=%s)", m.List[1], logOf(m.List[6]))
+		case "err":
+			model = fmt.Sprintf("(err %s log=%s)", m.List[1].Atom, logOf(m.List[5]))
+		default:
+			model = m.String()
+		}
+		r.Count("evalsource:compared", 1)
+		r.Count("evalsource:"+strings.SplitN(strings.Trim(reals[i], "()"), " ", 2)[0], 1)
+		if model != reals[i] && !(strings.Contains(reals[i], "f64") && strings.Contains(cs.Src, "**")) {
+			r.Mismatch("evalsource", cs.Src+" env="+valSx(envVal(cs)).String(), model, reals[i])
+		}
+	}
+	if r.Counters["evalsource:ok"] == 0 || r.Counters["evalsource:err"] == 0 {
+		r.Mismatch("generator", "evalsource", "successful and failing evaluations", fmt.Sprint(r.Counters["evalsource:ok"], r.Counters["evalsource:err"]))
+	}
+}
 
 type negZeroEnv struct{}
 
@@ -98,6 +249,8 @@ func runC01(c *Ctx) {
 		r.Mismatch("spec", vr.Case.Src+" ["+vr.Case.Mode.String()+"] env="+valSx(envVal(vr.Case)).String()+" tree="+vr.Case.B.TreeSx, spec, real)
 	})
 	negZeroAliasProbe(c)
+	// end to end through ALL model stages: source text -> lexer, parser, compiler, VM models vs expr.Eval
+	EvalSourceCorrespondence(c, cases, 1000)
 }
 
 func init() { props["C01"] = runC01 }
